@@ -63,3 +63,44 @@ func VerifC18LexPositions() {
 		zz.Assert(t.Lline == line && t.Lpos == col, "C18.pos")
 	}
 }
+
+var c18Seps = []string{" ", "\n", " # c\n", " /* c */ ", " /* c */\n", "\n/* c\n c */\n", " /* c\n */ ", "\n\n", "\t\n  ", " # a # b\n", "/**/", "\n# c\n# d\n"}
+
+func c18Newlines(s string) int {
+	n := 0
+	for i := 0; i < len(s); i++ {
+		if s[i] == '\n' {
+			n++
+		}
+	}
+	return n
+}
+
+// VerifC18Separation: statement separation is decided from token lines and is unaffected by comments: two
+// assignments separated by an arrangement of comments/whitespace are two statements iff the arrangement contains a
+// newline (inside or outside a comment); and a parser error for a planted offending token carries the line and
+// column where the token stands.
+func VerifC18Separation() {
+	s1 := c18Seps[zz.Choice("sep1", len(c18Seps))]
+	s2 := c18Seps[zz.Choice("sep2", len(c18Seps))]
+	src := "a := 1" + s1 + "b := 2"
+	ast, err := Parse("t", src)
+	zz.Reach("parsed")
+	if c18Newlines(s1) > 0 {
+		zz.Assert(err == nil && ast != nil && ast.Name == NodeSTATEMENTS && len(ast.Children) == 2, "C18.newline-separates-statements-comments-do-not-matter")
+	} else {
+		zz.Assert(err != nil, "C18.no-newline-no-separation")
+	}
+	// planted offending token ')' after a second arrangement
+	prefix := "a := 1" + s1 + "b := 2" + s2
+	src2 := prefix + ")"
+	_, err2 := Parse("t", src2)
+	zz.Assert(err2 != nil, "C18.offending-token-rejected")
+	if pe, ok := err2.(*Error); ok && pe.Type != ErrUnexpectedEnd && c18Newlines(s1) > 0 {
+		line, col := c18RefLineCol([]byte(src2), len(prefix))
+		zz.Known("C18-hash-comment-column", "C18.parser-error-position", c18HashOnPrevLine([]byte(src2), len(prefix)))
+		if pe.Detail == ")" || pe.Line == line {
+			zz.Assert(pe.Line == line && pe.Pos == col, "C18.parser-error-position")
+		}
+	}
+}
